@@ -354,8 +354,8 @@ func Spec() *mon.Spec {
 		},
 		ChildSetup: func(e *mon.Env) { caller = numcall.New() },
 		Phases: []mon.Phase{
-			{Name: "direct", Quick: 5000, Thorough: 120000, Batch: 250, Run: func(c *mon.Case) { runCalls(c, false) }},
-			{Name: "source", Quick: 500, Thorough: 10000, Batch: 32, Run: func(c *mon.Case) { runCalls(c, true) }},
+			{Name: "direct", Quick: 20000, Thorough: 120000, Batch: 250, Run: func(c *mon.Case) { runCalls(c, false) }},
+			{Name: "source", Quick: 1500, Thorough: 10000, Batch: 32, Run: func(c *mon.Case) { runCalls(c, true) }},
 		},
 		Floors: map[string]int{
 			"distinct_nontrivial": 30000, "calls_+": 8000, "calls_-": 8000, "calls_*": 8000, "calls_/": 8000,
